@@ -839,7 +839,7 @@ func c01AllOps() []int {
 
 // c01OpsButTranslate: Translate needs nucleotide rows (it is an error on anything else, and the
 // interpreter splits on every symbolic residue it classifies): the histories with Translate
-// are in H_C01_two_steps_translate and H_C01_two_steps_then_translate.
+// are in H_C01_twostep_translate and H_C01_twostep_then_translate.
 func c01OpsButTranslate() []int {
 	var ops []int
 	for i := 0; i < c01NbOps; i++ {
@@ -998,7 +998,7 @@ func H_C01_step_translate() {
 // post-state check after each. A history stops after a step that the model cannot follow
 // (unspecified state after an error, duplicate names created by the caller).
 // bounds: k<=2 prefix insertions, names {a,b}, L in 1..2, residues printable ASCII, lean argument variants (first variants of every operation, see c01Pick)
-// outside: histories longer than 2, k>2, Translate as a successful step (needs nucleotides: H_C01_two_steps_translate)
+// outside: histories longer than 2, k>2, Translate as a successful step (needs nucleotides: H_C01_twostep_translate)
 //verif: tier=thorough
 func H_C01_two_steps() {
 	c01AlignTwoSteps(c01Cfg{true, NUCLEOTIDS, c01Small[:2], 0, 2, 1, 2, c01GenPrintable}, c01OpsButTranslate(), c01OpsButTranslate())
@@ -1007,11 +1007,11 @@ func H_C01_two_steps() {
 // c01Observers: the operations that depend most on name index and cached length.
 var c01Observers = []int{c01OpAdd, c01OpConcat, c01OpSort, c01OpDedup, c01OpClone}
 
-// H_C01_two_steps_quick: quick-tier slice of H_C01_two_steps: any first operation but Translate, then one of
+// H_C01_twostep_quick: quick-tier slice of H_C01_two_steps: any first operation but Translate, then one of
 // AddSequence, Concat, Sort, Deduplicate, Clone.
 // bounds: k<=1 prefix insertions, names {a,b}, L in 1..2, residues printable ASCII, lean argument variants
 // outside: see H_C01_two_steps
-func H_C01_two_steps_quick() {
+func H_C01_twostep_quick() {
 	c01AlignTwoSteps(c01Cfg{true, NUCLEOTIDS, c01Small[:2], 0, 1, 1, 2, c01GenPrintable}, c01OpsButTranslate(), c01Observers)
 }
 
@@ -1037,11 +1037,11 @@ func H_C01_rename_then() {
 	c01Apply(al, m, c01Observers[nondetRange(0, len(c01Observers)-1)], cfg.pool, cfg.gen)
 }
 
-// H_C01_two_steps_translate: nucleotide prefix, Translate, then a second operation.
+// H_C01_twostep_translate: nucleotide prefix, Translate, then a second operation.
 // bounds: k<=2 prefix insertions, names {a,b}, L in {3,6}, residues as in H_C01_step_translate, phase -1 or 0
 // outside: see H_C01_step_translate
 //verif: tier=thorough
-func H_C01_two_steps_translate() {
+func H_C01_twostep_translate() {
 	c01Lean = true
 	cfg := c01Cfg{true, NUCLEOTIDS, c01Small[:2], 0, 2, 3, 3, c01GenAC}
 	if nondetRange(0, 1) == 1 {
@@ -1057,11 +1057,12 @@ func H_C01_two_steps_translate() {
 	c01Apply(al, m, ops[nondetRange(0, len(ops)-1)], cfg.pool, c01GenPrintable)
 }
 
-// H_C01_two_steps_then_translate: nucleotide prefix, any operation but Translate, then Translate.
+// H_C01_twostep_then_translate: nucleotide prefix, one of AddSequence, Concat, Sort, Deduplicate,
+// RemoveGapSeqs, TrimSequences, Clear, FilterLength, then Translate.
 // bounds: k<=2 prefix insertions, names {a,b}, L in {3,6}, residues as in H_C01_step_translate, phase -1 or 0
 // outside: see H_C01_step_translate
 //verif: tier=thorough
-func H_C01_two_steps_then_translate() {
+func H_C01_twostep_then_translate() {
 	c01Lean = true
 	cfg := c01Cfg{true, NUCLEOTIDS, c01Small[:2], 0, 2, 3, 3, c01GenAC}
 	if nondetRange(0, 1) == 1 {
@@ -1069,7 +1070,7 @@ func H_C01_two_steps_then_translate() {
 	}
 	sb, m := c01Prefix(cfg)
 	al := sb.(*align)
-	ops := c01OpsButTranslate()
+	ops := []int{c01OpAdd, c01OpConcat, c01OpSort, c01OpDedup, c01OpRemoveGapSeqs, c01OpTrimSeqs, c01OpClear, c01OpFilterLength}
 	if !c01Apply(al, m, ops[nondetRange(0, len(ops)-1)], cfg.pool, cfg.gen) {
 		return
 	}
